@@ -320,5 +320,88 @@ def constructMaps : List PEvent → List (List (String × String))
   | .use _ :: rest => constructMaps rest
 
 
+/-! ### `chain` / `draw` coordinates: datasets derived from the one a controller returns
+
+`_format_chains` labels the chains and draws `0..n-1`.  Users discard the warm-up
+(`.sel(draw=slice(k, None))`), thin the draws, keep a subset of the chains, or number the draws on from
+an earlier run before the dataset is fed to `compute_pointwise_loglikelihood` / a
+`PosteriorPredictiveModel`.  An axis of such a dataset is a list of (label, raw position): the label is
+the coordinate value, the raw position says which slice of the raw chain array sits there. -/
+
+abbrev Axis := List (Nat × Nat)
+
+/-- the coordinates `_format_chains` gives: `list(range(n))` -/
+def Axis.ofRange (n : Nat) : Axis := (List.range n).map (fun i => (i, i))
+
+def Axis.labels (ax : Axis) : List Nat := ax.map (·.1)
+def Axis.sources (ax : Axis) : List Nat := ax.map (·.2)
+
+/-- `.sel(dim=l)`: the raw position stored under the label `l` -/
+def Axis.find (ax : Axis) (l : Nat) : Option Nat := (ax.find? (fun e => e.1 == l)).map (·.2)
+
+/-- what is done to one dimension of the dataset (xarray, increasing integer labels) -/
+inductive DOp where
+  /-- `.sel(dim=[l, ...])`: the listed labels, `KeyError` for a label that is not there -/
+  | selLabels (ls : List Nat)
+  /-- `.sel(dim=slice(k, None))`: the labels `≥ k` (warm-up removed) -/
+  | fromLabel (k : Nat)
+  /-- `.isel(dim=slice(start, None, step))`: every `step`-th position from `start` on -/
+  | thin (start step : Nat)
+  /-- `.assign_coords(dim=labels + off)`: numbered on from where an earlier run stopped -/
+  | shift (off : Nat)
+  deriving Repr, DecidableEq
+
+def DOp.isShift : DOp → Bool
+  | .shift _ => true
+  | _ => false
+
+def selOne (ax : Axis) (l : Nat) : Except IErr (Nat × Nat) :=
+  match ax.find l with
+  | some p => .ok (l, p)
+  | none => .error .keyError
+
+def thinAxis (start step : Nat) (ax : Axis) : Axis :=
+  (ax.zipIdx.filter (fun e => decide (start ≤ e.2) && (e.2 - start) % step == 0)).map (·.1)
+
+def DOp.apply : DOp → Axis → Except IErr Axis
+  | .selLabels ls, ax => ls.mapM (selOne ax)
+  | .fromLabel k, ax => .ok (ax.filter (fun e => decide (k ≤ e.1)))
+  | .thin start step, ax => if step = 0 then .error .valueError else .ok (thinAxis start step ax)
+  | .shift off, ax => .ok (ax.map (fun e => (e.1 + off, e.2)))
+
+/-- one step: the dimension (`true` = chain, `false` = draw) and the operation -/
+abbrev DStep := Bool × DOp
+
+/-- the (chain axis, draw axis) of the derived dataset -/
+def derive : List DStep → Axis × Axis → Except IErr (Axis × Axis)
+  | [], g => .ok g
+  | (true, op) :: rest, g =>
+    match op.apply g.1 with
+    | .error e => .error e
+    | .ok c => derive rest (c, g.2)
+  | (false, op) :: rest, g =>
+    match op.apply g.2 with
+    | .error e => .error e
+    | .ok d => derive rest (g.1, d)
+
+/-- the axis `compute_pointwise_loglikelihood` puts on its result: slice `i` of the result is
+    computed from slice `i` of the dataset (positional loop) and labelled
+    `relabel = false` (the code as it is) with the dataset's own coordinate,
+    `relabel = true` (the slip of rebuilding the coordinates from the shape) with `i` -/
+def resultAxis (relabel : Bool) (ax : Axis) : Axis :=
+  if relabel then ax.zipIdx.map (fun e => (e.2, e.1.2)) else ax
+
+/-- `.sel(chain=c, draw=d)` on (chain axis, draw axis): the raw (chain, draw) position found there -/
+def entrySource (g : Axis × Axis) (c d : Nat) : Option (Nat × Nat) :=
+  match g.1.find c, g.2.find d with
+  | some pc, some pd => some (pc, pd)
+  | _, _ => none
+
+/-- the rows of the parameter matrix a `PosteriorPredictiveModel` draws from
+    (`.transpose('chain', 'draw', ...).values.flatten()`): chain-major raw positions -/
+def matrixRows (g : Axis × Axis) : List (Nat × Nat) :=
+  g.1.flatMap (fun c => g.2.map (fun d => (c.2, d.2)))
+
+
 end Inference
 end ChiModel
